@@ -431,6 +431,42 @@ def reshapeNT (r : NT O) (s' : Shape) : Except IErr (NT O) :=
       | some u => .ok u
       | none => .error .shape
 
+/-! ### in-place update of an entry (`set(..., inplace=True)`, `copy_`, entry-level `update_`) -/
+
+/-- `NonTensorStack._update` with a NonTensorData source: `_from_list([data] * …, ndim)` on the destination's batch size -/
+def promoteTo (src : NT O) (s : Shape) : NT O :=
+  match src with
+  | .shared o2 _ => fromShared o2 s
+  | .stack ms d => .stack ms d
+
+mutual
+/-- tensorclass.py:NonTensorData._update / NonTensorStack._update (plain entries: not shared-memory / memmap; the lock is the
+caller's): the in-place update of a non-tensor entry keeps the STRUCTURE of the destination — a shared entry takes the
+payload of a shared source (and refuses a stack: ValueError), a stack updates its members with the source unbound along its
+stack dim (a shared source is first promoted with `_from_list([data] * …, ndim)`) -/
+def updateNT : NT O → NT O → Except IErr (NT O)
+  | .shared _ s, src =>
+    match src with
+    | .shared o2 _ => .ok (.shared o2 s)
+    | .stack _ _ => .error .shape
+  | .stack ms d, src =>
+    match updateList ms (unbind (promoteTo src (shape (.stack ms d))) d) with
+    | .ok ms' => .ok (.stack ms' d)
+    | .error e => .error e
+def updateList : List (NT O) → List (NT O) → Except IErr (List (NT O))
+  | [], srcs => if srcs.isEmpty then .ok [] else .error .shape
+  | m :: r, srcs =>
+    match srcs with
+    | [] => .error .shape
+    | s :: rs =>
+      match updateNT m s with
+      | .error e => .error e
+      | .ok m' =>
+        match updateList r rs with
+        | .ok r' => .ok (m' :: r')
+        | .error e => .error e
+end
+
 /-- `entry.view(shape)` on a NonTensorStack (`_view(raise_if_not_view=True)`): only the two lazy branches -/
 def viewNT (r : NT O) (s' : Shape) : Except IErr (NT O) :=
   match r with
